@@ -3,9 +3,11 @@ module github.com/practable/relay/verifharness
 go 1.16
 
 require (
+	github.com/client9/reopen v1.0.0
 	github.com/golang-jwt/jwt/v4 v4.3.0
 	github.com/google/uuid v1.3.0
 	github.com/gorilla/websocket v1.5.0
+	github.com/jpillora/backoff v1.0.0
 	github.com/practable/relay v0.0.0
 	github.com/sirupsen/logrus v1.8.1
 )
